@@ -36,13 +36,13 @@ import (
 // harness created, the effects are the difference between two dumps of the
 // whole store and what arrived on every transport.
 
-// c11FlagUnrelatedReach: a command whose purpose is to reach another client
-// (DNS / SOCKS5 forwarding) delivering a packet to a client with which the
+// c11FlagUnrelatedReach: when true, a command whose purpose is to reach another
+// client (DNS / SOCKS5 forwarding) delivering a packet to a client with which the
 // authenticated sender shares no mapping is reported (class "reach:unrelated-client").
-// The property's last clause ("only those mappings ... it is a party to") and the
-// SOCKS5 handler's own listen-client check are the basis; set to false to
-// restrict the reach oracle to unauthenticated senders.
-const c11FlagUnrelatedReach = true
+// The property text does not clearly forbid that, so it is off: the reach oracle
+// flags only unauthenticated senders, forged sender ids in what is delivered, and
+// disclosure to the receiver.
+const c11FlagUnrelatedReach = false
 
 type c11obj struct {
 	kind    string // mapping | code | domain | client
@@ -160,7 +160,7 @@ func init() {
 			"a connection code is a bearer secret: an authenticated client presenting an unactivated code becomes a party to it by activating it",
 			"http_domain_get_base_domains and http_domain_gen_subdomain read no client-owned state and may be served to anyone; every other dispatched command (including ones added later) must not succeed on an unauthenticated connection",
 			"a change of a store key is attributed to the harness-known objects and client ids named in the key or in the changed part of the value; keys naming nobody (counters, global id lists) are not client-owned state",
-			"reach oracle for authenticated senders (class reach:unrelated-client) is an interpretation of the last clause of the property, see c11FlagUnrelatedReach",
+			"an authenticated client reaching an unrelated authenticated client through DNS forwarding is not forbidden by the property text and is not flagged (c11FlagUnrelatedReach=false)",
 		},
 		Opt: func(tier string) simrt.Options {
 			return simrt.Options{MaxSteps: 3000000, MaxIdle: 2 * time.Hour}
@@ -1083,6 +1083,9 @@ func (r *c11run) forgedDNS(s *c11step, z *c11conn, table []packet.CommandType) {
 		r.nontr = true
 		w.Probe("forged-dns.pending")
 	}
+	if got && z == b {
+		w.Probe("forged-dns.genuine-answer-delivered")
+	}
 	if got && z != b && z != a { // A answering its own question deceives nobody else
 		cls := "stranger"
 		if z.id == 0 {
@@ -1125,6 +1128,9 @@ func (r *c11run) forgedHTTP(s *c11step, z *c11conn) {
 	if pending {
 		r.nontr = true
 		w.Probe("forged-http.pending")
+	}
+	if got && z == b {
+		w.Probe("forged-http.genuine-answer-accepted")
 	}
 	if got && z != b {
 		cls := "stranger"
